@@ -6,6 +6,7 @@ package app
 
 import (
 	"context"
+	"encoding/json"
 	"fmt"
 	"os"
 	"path/filepath"
@@ -67,6 +68,8 @@ type Config struct {
 	// engine debug output)
 	StateDebug  bool `json:"state_debug,omitempty"`
 	EngineDebug bool `json:"engine_debug,omitempty"`
+	// Debugger: the engine gets the library's SimpleDebug attached (WithDebug), writing to nowhere
+	Debugger bool `json:"debugger,omitempty"`
 	// First: the engine gets a first function (engine.WithFirst), run before control goes
 	// to the bytecode whenever an engine object starts serving
 	First *First `json:"first,omitempty"`
@@ -263,6 +266,36 @@ func NewShared(a *App) *Shared {
 		s.Code[n.Name] = b
 	}
 	return s
+}
+
+// SecondApp: another application that happens to use the same node and symbol names: every
+// template says something else.
+func SecondApp(a *App) *App {
+	raw, err := json.Marshal(a)
+	if err != nil {
+		panic(err)
+	}
+	b := &App{}
+	if err := json.Unmarshal(raw, b); err != nil {
+		panic(err)
+	}
+	for i := range b.Nodes {
+		b.Nodes[i].Tpl = "second " + b.Nodes[i].Tpl + " app"
+	}
+	for i := range b.Trans {
+		for k, v := range b.Trans[i].Templates {
+			b.Trans[i].Templates[k] = "second " + v + " app"
+		}
+	}
+	return b
+}
+
+// OtherOutputSize: the output size of a second channel the same application is served on.
+func OtherOutputSize(n uint32) uint32 {
+	if n == 0 {
+		return 160
+	}
+	return 0
 }
 
 // ScriptedResult is what the n-th call of a scripted function answers (for oracles that
